@@ -1,7 +1,7 @@
 (* C22  Connection event timing and supervision follow the connection parameters.  Statements only; proofs in LL/LLProofs.v. *)
 From Coq Require Import String.
-From BT Require Import Base.ListX LL.LLModel LL.LLSpec LL.LLSpecC22 LL.LLProofs.
-From BT Require gen.GenLL.
+From BT Require Import Base.ListX LL.LLModel LL.LLSpec LL.LLSpecC22 LL.LLProofs LL.LLProofsC22Sim.
+From BT Require gen.GenLL ChanMap.ChanMapModel.
 Import ListNotations.
 Local Open Scope N_scope.
 
@@ -81,10 +81,45 @@ Print Assumptions C22_connection_only_from_valid_request.
 Theorem C22_check_timing_total : forall t, check_timing t <> None.
 Proof. exact check_timing_total. Qed.
 
-(* 5. The monitor (LLSpecC22.mstep22) accepts every trace of the model: stated, NOT proved (MISSING: a simulation proof
-   between the monitor's anchor bookkeeping and the model; tested on every run on the model's and the implementation's
-   traces). *)
+(* and the converse: EVERY connect request that is addressed to this device and valid in the specification's sense
+   (LLSpecC22.connect_valid: the ranges above, hop increment 5..16, at least two used data channels - C20's num_used) is
+   accepted, for every own sleep clock accuracy <= 500 ppm, and the first connection event is scheduled with the requested
+   interval.  (The length of the channel table is 37 in every state the model reaches; it is 37 initially.) *)
+Theorem C22_valid_request_connects :
+  forall c s hdr0 body,
+    c_sca c <= 500 -> length (ChanMapModel.tbl (chan s)) = 37%nat ->
+    addressed_to_us c hdr0 body = true -> connect_valid body = true ->
+    exists s' it, do_adv_received c s hdr0 body = Some (s', it) /\ st s' = Connecting /\
+                  exists chn ws we, In (ICe chn ws we (rd16 body 22 * 1250)) it.
+Proof. exact valid_request_accepted. Qed.
+Print Assumptions C22_valid_request_connects.
+
+(* 5. THE MONITOR (LLSpecC22.mstep22).  "The monitor accepts every trace of the model" is stated for all operation
+   sequences and NOT proved in that generality: *)
 Definition C22_monitor_accepts_all_full : Prop := monitor22_accepts_all.
+(* PROVED for operation sequences of any length inside the environment [env22] - the quantifier of the property: any
+   connect requests (valid, invalid, not addressed to us), any pattern of connection events of the central without PDUs
+   (any event flags) and of missed events up to and beyond the supervision timeout, restarts of advertising, transmit
+   buffer operations, every configuration with an own sleep clock accuracy <= 500 ppm.  The environment is an executable
+   predicate computed along the model's run (op_ok22 on each operation, no model crash).  OUTSIDE: PDUs of the central
+   inside the events (control procedures: C21 / C27 / C28; in particular connection updates, whose window arithmetic the
+   monitor checks on every run but which is not covered by this proof), the API calls (disconnect, connection parameter
+   update, PHY update).  The proof is a simulation: LLProofsC22Sim.Sim22 couples the monitor's parameters, anchor time and
+   counter of missed events with the model's state; sim22_step is the step lemma. *)
+Theorem C22_monitor_accepts_partial :
+  forall c ops, cfg_ok22 c = true -> env22 c (linit c) ops = true -> accepts22 c (trace_of c ops).
+Proof. exact monitor22_accepts_partial. Qed.
+Print Assumptions C22_monitor_accepts_partial.
+Theorem C22_simulation_step :
+  forall c s p o s' r,
+    cfg_ok22 c = true -> Sim22 s p -> op_ok22 o = true -> lstep c s o = (s', r) -> r <> OCrash ->
+    exists p', mstep22 c p o r = (Ok, p') /\ Sim22 s' p'.
+Proof. exact sim22_step. Qed.
+(* the environment is satisfiable: the session below (connect request, events, 6 missed events up to the supervision
+   timeout) is inside it *)
+Example C22_environment_is_satisfiable :
+  cfg_ok22 cfg_base = true /\ env22 cfg_base (linit cfg_base) session22_ok = true.
+Proof. split; vm_compute; reflexivity. Qed.
 
 (* non-vacuity *)
 Example C22_monitor_accepts_a_session_with_missed_events :
